@@ -2,6 +2,7 @@ package main
 
 import (
 	"fmt"
+	"strconv"
 	"go/token"
 	"strings"
 
@@ -184,6 +185,7 @@ type execOpts struct {
 	MaxPaths  int
 	Pure      func(call ssa.CallInstruction) bool
 	NoInline  bool // do not inline single-block module functions into terms
+	abandoned *int
 }
 
 type executor struct {
@@ -195,6 +197,8 @@ type executor struct {
 	inLoop map[*ssa.BasicBlock]bool
 	over   bool
 	escapd map[*ssa.Alloc]bool
+	// abandoned: path prefixes dropped because a block would have been visited more than MaxVisits times
+	abandoned int
 }
 
 type pstate struct {
@@ -249,6 +253,15 @@ func (s *pstate) clone() *pstate {
 	return n
 }
 
+// pathsOfAll enumerates ALL paths of fn: it reports how many prefixes had to be abandoned at the
+// visit bound (0 means the enumeration is exhaustive: every loop terminated within the bound).
+func pathsOfAll(prog *Program, fn *ssa.Function, dom *Domain, opts execOpts) ([]*Path, bool, int) {
+	var ab int
+	opts.abandoned = &ab
+	ps, ok := pathsOf(prog, fn, dom, opts)
+	return ps, ok, ab
+}
+
 // pathsOf enumerates the paths of fn under the domain.
 func pathsOf(prog *Program, fn *ssa.Function, dom *Domain, opts execOpts) ([]*Path, bool) {
 	if opts.MaxVisits == 0 {
@@ -290,6 +303,9 @@ func pathsOf(prog *Program, fn *ssa.Function, dom *Domain, opts execOpts) ([]*Pa
 	}
 	st := &pstate{visits: map[*ssa.BasicBlock]int{}, pred: map[*ssa.BasicBlock]*ssa.BasicBlock{}, classes: map[string]ClassSet{}, atoms: map[string]bool{}, locals: map[*ssa.Alloc]*Term{}, stored: map[string]int{}}
 	ex.run(st, fn.Blocks[0], nil)
+	if opts.abandoned != nil {
+		*opts.abandoned = ex.abandoned
+	}
 	return ex.paths, !ex.over
 }
 
@@ -336,6 +352,7 @@ func (ex *executor) run(st *pstate, b *ssa.BasicBlock, from *ssa.BasicBlock) {
 		return
 	}
 	if st.visits[b] >= ex.opts.MaxVisits {
+		ex.abandoned++
 		return // do not follow: path abandoned (back edge beyond the visit bound)
 	}
 	st.visits[b]++
@@ -351,16 +368,34 @@ func (ex *executor) run(st *pstate, b *ssa.BasicBlock, from *ssa.BasicBlock) {
 		old := st.tc.memo
 		ex.newTC(st)
 		st.tc.memo = old
+		// φ-nodes take the values their operands had at the END of the previous iteration: evaluate
+		// them against the old memo before anything is invalidated
+		newPhi := map[ssa.Value]*Term{}
+		for _, in := range b.Instrs {
+			phi, ok := in.(*ssa.Phi)
+			if !ok {
+				break
+			}
+			for i, pb := range b.Preds {
+				if pb == from {
+					newPhi[phi] = st.tc.Of(phi.Edges[i])
+				}
+			}
+		}
 		for _, in := range b.Instrs {
 			if v, ok := in.(ssa.Value); ok {
 				delete(st.tc.memo, v)
 			}
 		}
+
 		// values depending on them (defined in blocks dominated by b) are dropped as well
 		for v := range st.tc.memo {
 			if in, ok := v.(ssa.Instruction); ok && in.Block() != nil && in.Block() != b && b.Dominates(in.Block()) && st.visits[in.Block()] > 0 && ex.inLoop[in.Block()] {
 				delete(st.tc.memo, v)
 			}
+		}
+		for v, t := range newPhi {
+			st.tc.memo[v] = t
 		}
 	} else {
 		// pred map is shared by reference with tc; memo stays valid for first visits
@@ -536,6 +571,22 @@ func (ex *executor) evalCond(st *pstate, t *Term) condEval {
 			r.note = "neg"
 		}
 		return r
+	case t.Op == "bin" && (t.Sym == "<" || t.Sym == "<=" || t.Sym == "==" || t.Sym == "!=") && t.Args[0].Op == "const" && t.Args[1].Op == "const" && isIntLit(t.Args[0].Sym) && isIntLit(t.Args[1].Sym):
+		// both operands are integer literals (typically a path-resolved loop counter against its bound)
+		a, _ := strconv.ParseInt(t.Args[0].Sym, 10, 64)
+		b, _ := strconv.ParseInt(t.Args[1].Sym, 10, 64)
+		var v bool
+		switch t.Sym {
+		case "<":
+			v = a < b
+		case "<=":
+			v = a <= b
+		case "==":
+			v = a == b
+		case "!=":
+			v = a != b
+		}
+		return condEval{kind: "const", value: v}
 	case t.Op == "bin" && (t.Sym == "<" || t.Sym == "<=" || t.Sym == "==" || t.Sym == "!="):
 		x, y := t.Args[0], t.Args[1]
 		op := t.Sym
@@ -748,4 +799,9 @@ func reachableFrom(b *ssa.BasicBlock) map[*ssa.BasicBlock]bool {
 		stack = append(stack, x.Succs...)
 	}
 	return seen
+}
+
+func isIntLit(s string) bool {
+	_, err := strconv.ParseInt(s, 10, 64)
+	return err == nil
 }
